@@ -154,6 +154,7 @@ pub fn derive_system_param(input: TokenStream) -> TokenStream
             {
                 type State = __State #state_args;
                 type Item<'__w, '__s> = #name #item_args;
+                const M_DEFERRED: bool = false #( || <#ftys_static as __SP>::M_DEFERRED )*;
 
                 fn init_state(world: &mut bevy::ecs::world::World) -> Self::State
                 {
